@@ -189,7 +189,7 @@ theorem limbBoundWithOffset_le (full rs rb ib : Nat) (off : Int) : limbBoundWith
 /-- what the tensor forms guarantee about their result `T` (masked operands `aP`, `bP` of `sa` / `sb` limbs, grouped secret `skG`,
 `σ_0 = 1`, `σ_i = s_i`): shape, and `A·phase_{skG}(T) = K·β·(Σσ_i val(aP_i))·(Σσ_j val(bP_j)) + weighted residuals` -/
 def TensorSpec (N rb rs off b : Nat) (a bb : List Col) (aK bK : Nat) (skG : List Poly) (σ : ℕ → R N) (sa sb cols : Nat) (T : List Col) : Prop :=
-  T.length = (cols + 1) * cols / 2 ∧ (∀ c ∈ T, ColWF N rs c) ∧
+  T.length = (cols + 1) * cols / 2 ∧ (∀ c ∈ T, ColWF N rs c) ∧ (∀ c ∈ T, ∀ l ∈ c, ∀ v ∈ l, |v| ≤ 3 * (2 ^ rb - 1)) ∧
       ∃ (eD qD : ℕ → Poly) (eP qP : ℕ → ℕ → Poly),
         (∀ i, i < cols → (eD i).length = N ∧ (qD i).length = N ∧
           normInf (eD i) ≤ normTolOff (rb * rs) (b * limbBoundWithOffset (sa + sb - (cnvOffsetSplit b off).1) rs rb b (cnvOffsetSplit b off).2) (cnvOffsetSplit b off).2) ∧
@@ -252,7 +252,7 @@ theorem tensorApply_total (big128 : Bool) (N rb rs off b : Nat) (a bb : List Col
         ∀ v ∈ l, |v| ≤ H)
     (hskl : skG.length = (cols + 1) * cols / 2 - 1) (hσ0 : σ 0 = 1)
     (hτ : ∀ i j, i ≤ j → j < cols → 0 < cix cols i j → ι N (skG.getD (cix cols i j - 1) []) = σ i * σ j) :
-    ∃ T, tensorApply false big128 N rb rs off b a aK bb bK res0 = some T ∧ T.length = (cols + 1) * cols / 2 ∧ (∀ c ∈ T, ColWF N rs c) ∧
+    ∃ T, tensorApply false big128 N rb rs off b a aK bb bK res0 = some T ∧ T.length = (cols + 1) * cols / 2 ∧ (∀ c ∈ T, ColWF N rs c) ∧ (∀ c ∈ T, ∀ l ∈ c, ∀ v ∈ l, |v| ≤ 3 * (2 ^ rb - 1)) ∧
       ∃ (eD qD : ℕ → Poly) (eP qP : ℕ → ℕ → Poly),
         (∀ i, i < cols → (eD i).length = N ∧ (qD i).length = N ∧
           normInf (eD i) ≤ normTolOff (rb * rs) (b * limbBoundWithOffset (sa + sb - (cnvOffsetSplit b off).1) rs rb b (cnvOffsetSplit b off).2) (cnvOffsetSplit b off).2) ∧
@@ -397,7 +397,24 @@ theorem tensorApply_total (big128 : Bool) (N rb rs off b : Nat) (a bb : List Col
     · have hlt : i < j := by omega
       rw [hTo i j hlt hjc]
       exact tensor_offcol_wf _ _ _ (hDz i (by omega)).2.1 (hDz j hjc).2.1 (hPz i j hlt hjc).2.1
-  refine ⟨T, hcall, hTlen, hTwf, eD, qD, eP, qP, fun i hic => ⟨(hDz i hic).2.2.2.1, (hDz i hic).2.2.2.2.1, (hDz i hic).2.2.2.2.2.1⟩,
+  have hTdig : ∀ c ∈ T, ∀ l ∈ c, ∀ v ∈ l, |v| ≤ 3 * (2 ^ rb - 1) := by
+    intro c hc
+    obtain ⟨k, hk, rfl⟩ := List.getElem_of_mem hc
+    have e : T[k] = T.getD k [] := by simp [List.getD_eq_getElem?_getD, List.getElem?_eq_getElem hk]
+    rw [e]
+    obtain ⟨i, j, hij, hjc, rfl⟩ := cix_surj cols k (by rw [← hTlen]; exact hk)
+    by_cases he : i = j
+    · subst he; rw [hTd i hjc]
+      intro l hl v hv
+      have := (hDz i hjc).2.2.1 l hl v hv
+      linarith
+    · have hlt : i < j := by omega
+      rw [hTo i j hlt hjc]
+      intro l hl v hv
+      have h1 := colAdd_bound _ _ (2 ^ rb - 1) (2 ^ rb - 1) (neg_col_bound _ _ (hDz i (by omega)).2.2.1) (neg_col_bound _ _ (hDz j hjc).2.2.1)
+      have h2 := colAdd_bound _ _ _ (2 ^ rb - 1) h1 (hPz i j hlt hjc).2.2.1 l hl v hv
+      linarith
+  refine ⟨T, hcall, hTlen, hTwf, hTdig, eD, qD, eP, qP, fun i hic => ⟨(hDz i hic).2.2.2.1, (hDz i hic).2.2.2.2.1, (hDz i hic).2.2.2.2.2.1⟩,
     fun i j hij hjc => ⟨(hPz i j hij hjc).2.2.2.1, (hPz i j hij hjc).2.2.2.2.1, (hPz i j hij hjc).2.2.2.2.2.1⟩, ?_⟩
   -- the phase under the grouped secret as a sum over the tensor columns
   have hTpos : 0 < (cols + 1) * cols / 2 := by
